@@ -4,6 +4,7 @@ From Coq Require Import ZArith List String.
 From AGH Require Import Base.Run Model.QLogFile Model.QLogCodec Model.QLogBytes
   Proofs.QLogFile Proofs.QLogFileAbsent Proofs.QLogHistory Proofs.QLogCodec Proofs.QLogCodecLoc Proofs.QLogBytes Proofs.QLogStamp
   Model.QLog Model.QLogDisk Proofs.QLogDisk.
+From AGH Require Import Model.QLogCmp Proofs.QLogCmp.
 Import ListNotations.
 Local Open Scope Z_scope.
 
@@ -550,3 +551,52 @@ Theorem C20_seek_record_clock_refuted :
     = seek_record_st 16384 1638400 (Some (ex_now + 2 * hour)) (new_reader ex_future).
 Proof. exact seek_record_clock_refuted. Qed.
 Print Assumptions C20_seek_record_clock_refuted.
+
+(** * Stamps and targets over the whole int64 range (round 9)
+
+    Probed stamp and wanted stamp are int64 Unix nanoseconds (1677 .. 2262).
+    seekTS decides with Go's [==] and [>] on them ([go_cmp]); the loop of the
+    model is the loop deciding through [go_cmp]; [go_cmp] is the order of the
+    unbounded integers for ALL pairs, so the theorems above (stated on Z)
+    hold for targets and stamps anywhere in the range, also more than 2^63 ns
+    apart. *)
+Theorem C20_stamp_decision_is_integer_order : forall a b, go_cmp a b = (a ?= b).
+Proof. exact go_cmp_order. Qed.
+Print Assumptions C20_stamp_decision_is_integer_order.
+
+Theorem C20_seek_decides_by_stamp_decision : forall fuel me (f : qfile) ts start end_ probe last depth,
+  seek_loop_c go_cmp fuel me f ts start end_ probe last depth = seek_loop fuel me f ts start end_ probe last depth.
+Proof. exact seek_loop_c_go. Qed.
+Print Assumptions C20_seek_decides_by_stamp_decision.
+
+(** Any decision that is the integer order on the pairs (stored stamp,
+    target) runs the same search. *)
+Theorem C20_seek_same_for_every_order_decision : forall cmp me (f : qfile) ts,
+  (forall k l t, nth_error f k = Some (l, t) -> cmp t ts = (t ?= ts)) ->
+  seek_ts_c cmp me f ts = seek_ts me f ts.
+Proof. exact seek_ts_c_order. Qed.
+Print Assumptions C20_seek_same_for_every_order_decision.
+
+(** A decision on the int64 DIFFERENCE of the two stamps is the integer order
+    when the difference is an int64, and is NOT for every pair of int64 stamps
+    whose difference is none (refuted: [wrap64] is where int64 subtraction
+    wraps). *)
+Theorem C20_difference_decision_near : forall a b, int64_ok (a - b) -> sub_cmp a b = (a ?= b).
+Proof. exact sub_cmp_near. Qed.
+Print Assumptions C20_difference_decision_near.
+
+Theorem C20_difference_decision_far_refuted : forall a b,
+  int64_ok a -> int64_ok b -> ~ int64_ok (a - b) -> sub_cmp a b <> (a ?= b).
+Proof. exact sub_cmp_far. Qed.
+Print Assumptions C20_difference_decision_far_refuted.
+
+Example C20_far_target_example :
+  int64_ok year_1700 /\ Forall (fun x : Z * Z => int64_ok (snd x)) file_2024 /\
+  lines_ok 16384 file_2024 /\ stamps_nonzero file_2024 /\
+  seek_ts 16384 file_2024 year_1700 = TooEarly /\
+  seek_ts_c go_cmp 16384 file_2024 year_1700 = TooEarly /\
+  seek_ts_c sub_cmp 16384 file_2024 year_1700 = TooLate /\
+  sub_cmp 1704070800000000000 (1704070800000000000 - 2 ^ 63 + 1) = Gt /\
+  sub_cmp 1704070800000000000 (1704070800000000000 - 2 ^ 63) = Lt.
+Proof. exact far_target_example. Qed.
+Print Assumptions C20_far_target_example.
